@@ -290,6 +290,9 @@ struct IndSrc {
     lsb: Vec<i16>,
     /// glyph records (empty unless the font has glyf/loca)
     glyphs: Vec<Result<GlyphRec, String>>,
+    /// synthesized CFF-family fonts: the glyphs whose charstring operands sit on the number-encoding
+    /// boundaries: glyph id -> (family, the key values among its integer operands, number of 16.16 operands)
+    bounds: BTreeMap<u16, (&'static str, Vec<i32>, usize)>,
 }
 
 impl IndSrc {
@@ -298,7 +301,7 @@ impl IndSrc {
         let nhm = t.num_h_metrics().ok_or("no hhea")?;
         let (adv, lsb) = t.h_metrics()?;
         let glyphs = if t.has("glyf") { t.glyphs()? } else { vec![] };
-        Ok(IndSrc { n, nhm, adv, lsb, glyphs })
+        Ok(IndSrc { n, nhm, adv, lsb, glyphs, bounds: BTreeMap::new() })
     }
     fn comps(&self, g: u16) -> Vec<u16> {
         self.glyphs.get(g as usize).map(ind::comp_gids).unwrap_or_default()
@@ -380,10 +383,22 @@ fn subset_events(
             };
             (n, m, gl, Box::new(vis))
         };
-    if kind == "cff" {
+    // which re-encoding the retained charstrings went through
+    let mut path = match kind {
+        "cff2" => "cff2-to-cff",
+        "cff" => "cff-subset",
+        "cid" => "cid-subset",
+        _ => "",
+    };
+    if kind == "cff" || kind == "cff2" {
         if let Some(f) = if bare_cff { ind::cff_facts(&bytes) } else { Tables::from_sfnt(&bytes, 0).and_then(|t| t.get("CFF ").and_then(ind::cff_facts)) } {
-            if f.cid {
+            if f.cid && kind == "cff" {
                 rec.bump("type1_converted_to_cid", 1);
+                path = "type1-to-cid";
+            }
+            if f.cid && kind == "cff2" {
+                rec.bump("cff2_converted_to_cid", 1);
+                path = "cff2-to-cid";
             }
         }
     }
@@ -424,6 +439,22 @@ fn subset_events(
                 for f in comp_features(r) {
                     rec.bump(&format!("composite_retained:{}", f), 1);
                 }
+            }
+        }
+        if let Some((family, ints, fixed)) = src.bounds.get(&o) {
+            // a boundary glyph retained, its source outline delivered: operands on the number-encoding boundaries
+            // went through this re-encoding path and are compared
+            if vs[k]["ok"] == json!(true) {
+                rec.bump(&format!("boundary:{}:glyphs", path), 1);
+                rec.bump(&format!("boundary:{}:family:{}", path, family), 1);
+                for v in ints {
+                    rec.bump(&format!("boundary:{}:value:{}", path, v), 1);
+                }
+                if *fixed > 0 {
+                    rec.bump(&format!("boundary:{}:value:fixed-16.16", path), 1);
+                }
+            } else {
+                rec.bump("boundary_glyph_without_source_outline", 1);
             }
         }
         let (isrc, iout) = if is_glyf { (irec(src.glyphs.get(o as usize)), irec(out_glyphs.get(n as usize))) } else { (no_irec(), no_irec()) };
@@ -688,6 +719,7 @@ struct Source {
     tables: Tables,
     kind: String,
     facts: Option<ind::CffFacts>,
+    bounds: Vec<syn::Bound>,
 }
 
 fn kind_of(t: &Tables) -> (String, Option<ind::CffFacts>) {
@@ -724,7 +756,7 @@ fn sources() -> Vec<Source> {
                 if kind == "none" || !["maxp", "hhea", "hmtx", "head"].iter().all(|x| t.has(x)) {
                     continue;
                 }
-                out.push(Source { label: format!("{}#{}", rel(&path), m), file: data.clone(), member: m, tables: t, kind, facts });
+                out.push(Source { label: format!("{}#{}", rel(&path), m), file: data.clone(), member: m, tables: t, kind, facts, bounds: vec![] });
             }
         }
     }
@@ -905,14 +937,14 @@ fn record(seed: u64, tier: &str, out: &str) {
         .map(|f| {
             let (kind, facts) = kind_of(&f.tables);
             assert_eq!(kind, f.kind);
-            Source { label: format!("{}#0", f.label), file: f.file, member: 0, tables: f.tables, kind, facts }
+            Source { label: format!("{}#0", f.label), file: f.file, member: 0, tables: f.tables, kind, facts, bounds: f.bounds }
         })
         .collect();
     all.splice(0..0, syn);
     let mut per_kind_seen: BTreeMap<String, usize> = BTreeMap::new();
     let mut wrapped: BTreeMap<String, usize> = BTreeMap::new();
     for s in &all {
-        let src = match IndSrc::of(&s.tables) {
+        let mut src = match IndSrc::of(&s.tables) {
             Ok(v) => v,
             Err(why) => {
                 rec.bump(&format!("source_not_readable:{}", why.chars().take(30).collect::<String>()), 1);
@@ -922,6 +954,7 @@ fn record(seed: u64, tier: &str, out: &str) {
         if src.n == 0 {
             continue;
         }
+        src.bounds = s.bounds.iter().map(|b| (b.gid, (b.family, b.ints.clone(), b.fixed))).collect();
         // the ~200 fonts of tests/aots share one glyph set (100 glyphs, one long metric): a seeded handful of them
         let class = if s.label.starts_with("aots/") {
             format!("aots-{}", s.kind)
@@ -954,6 +987,12 @@ fn record(seed: u64, tier: &str, out: &str) {
             // every glyph of a synthesized font is retained at least once (they are there for a reason)
             lists.push(("all".into(), (0..src.n as u16).collect()));
         }
+        if !s.bounds.is_empty() {
+            // the boundary glyphs alone: fewer than 256 glyphs (name-keyed output where the source allows it)
+            let mut l = vec![0u16];
+            l.extend(s.bounds.iter().map(|b| b.gid));
+            lists.push(("boundary-glyphs".into(), l));
+        }
         let fd = match ReadScope::new(&s.file).read::<FontData<'_>>() {
             Ok(fd) => fd,
             Err(_) => continue,
@@ -969,7 +1008,7 @@ fn record(seed: u64, tier: &str, out: &str) {
         } else {
             vec!["prince:unrestricted:t1", "prince:unrestricted:cid"]
         };
-        let pick: Vec<(String, Vec<u16>)> = lists.iter().filter(|l| l.0.starts_with("random") || l.0 == "all").cloned().collect();
+        let pick: Vec<(String, Vec<u16>)> = lists.iter().filter(|l| l.0.starts_with("random") || l.0 == "all" || l.0 == "boundary-glyphs").cloned().collect();
         run_source(&mut rec, &s.label, "otf", &s.kind, &prov, &src, &pick, &prince_apis);
         // re-wrapped as WOFF and WOFF2 (a sample per kind): the source of truth stays the OpenType file
         let w = wrapped.entry(class.clone()).or_default();
